@@ -17,11 +17,11 @@ PRUNED = {
 }
 
 
-def traversal_push(ctx, P, rule="TRAVERSAL-PUSH", floor=10):
+def traversal_push(ctx, P, rule="TRAVERSAL-PUSH", floor=10, tus=None):
     ctx.rule(rule, "every stack-based tree traversal pushes each child it iterates (`for (v = left_child[u]; v != TSK_NULL; v = "
                    "right_sib[v]) stack[..] = v`) unconditionally; the three pruned traversals confirmed by reading push under "
                    "exactly their documented condition.  A conditional push silently skips subtrees")
-    for key in LIB_TUS:
+    for key in (tus or LIB_TUS):
         tu = P.tus[key]
         for fn in tu.funcs.values():
             F = None
@@ -47,7 +47,7 @@ def traversal_push(ctx, P, rule="TRAVERSAL-PUSH", floor=10):
                                    "child pushed %s" % ("under " + str(conds) if conds else "unconditionally") if ok else
                                    "child pushed only under %s (expected %s): subtrees are skipped" % (conds, want or "no condition"))
                             k += 1
-    ctx.floor(rule, floor)
+    ctx.floor(rule, floor if tus is None else 1)
 
 
 def variant_decode(ctx, P, rule="VARIANT-DECODE"):
